@@ -30,10 +30,6 @@ ASSUMPTIONS = [
     "the solver stack of pyMOTO (auto_determine_solver, LDAWrapper, factorisations) is covered by C05/C06",
     "solver overrides are chosen among the solver classes that are valid for the matrix class (Cholesky/CG only for "
     "Hermitian positive definite, LDL for Hermitian/symmetric, SolverDiagonal for diagonal matrices)",
-    "SystemOfEquations with a real dense matrix and complex bf/xp silently drops the imaginary parts "
-    "(corpus/defects/c07_soe_complex_rhs_real_matrix.py.candidate): excluded from the correspondence stream",
-    "StaticCondensation with an iterative (CG) solver override raises ValueError because the rhs is a numpy.matrix "
-    "(corpus/defects/c07_staticcond_iterative_solver.py.candidate): excluded from the correspondence stream",
     "scipy's coo format cannot be indexed, so SystemOfEquations/StaticCondensation are exercised with csc/csr (LinSolve also with coo)",
 ]
 
@@ -303,11 +299,20 @@ def build(spec):
         if spec.get("shuffle", rng.random() < 0.3):
             f, p = rng.permutation(f), rng.permutation(p)
         k = spec.get("k", [None, 1, 2][int(rng.integers(0, 3))])
-        bcplx = cplx
+        # dtypes of the loads / prescribed values: with a real DENSE matrix either may be complex (the outputs take the
+        # common dtype); a real SPARSE matrix with complex data is rejected by the inner LinSolve (malformed stream)
+        if cplx:
+            bfc, xpc = True, True
+        elif sparse:
+            bfc, xpc = False, False
+        else:
+            bfc, xpc = [(False, False), (False, False), (True, True), (True, False), (False, True)][
+                spec.get("rhsdtype", int(rng.integers(0, 5)))]
+        bcplx = bfc or xpc or cplx
         shf = (len(f),) if k is None else (len(f), k)
         shp = (len(p),) if k is None else (len(p), k)
-        c.bf = rng.standard_normal(shf) + (1j * rng.standard_normal(shf) if bcplx else 0)
-        c.xp = rng.standard_normal(shp) + (1j * rng.standard_normal(shp) if bcplx else 0)
+        c.bf = rng.standard_normal(shf) + (1j * rng.standard_normal(shf) if bfc else 0)
+        c.xp = rng.standard_normal(shp) + (1j * rng.standard_normal(shp) if xpc else 0)
         give = spec.get("give", str(rng.choice(["both", "free", "prescribed"])))
         if give != "both":  # the complement computed by the code is sorted
             if give == "free":
@@ -316,14 +321,14 @@ def build(spec):
                 f = np.sort(f)
         seeds = spec.get("seeds", str(rng.choice(["both", "x", "b"])))
         sh = (n,) if k is None else (n, k)
-        c.gx = (rng.standard_normal(sh) + (1j * rng.standard_normal(sh) if cplx else 0)) if seeds in ("both", "x") else None
-        c.gb = (rng.standard_normal(sh) + (1j * rng.standard_normal(sh) if cplx else 0)) if seeds in ("both", "b") else None
+        c.gx = (rng.standard_normal(sh) + (1j * rng.standard_normal(sh) if bcplx else 0)) if seeds in ("both", "x") else None
+        c.gb = (rng.standard_normal(sh) + (1j * rng.standard_normal(sh) if bcplx else 0)) if seeds in ("both", "b") else None
         choices = solver_choices(cls, sparse, cplx)
         c.solver = spec.get("solver", choices[int(rng.integers(0, len(choices)))] if rng.random() < 0.3 else None)
         c.A, c.f, c.p, c.k, c.give = A, f, p, k, give
         c.cls, c.cplx, c.sparse, c.fmt, c.bcplx = cls, cplx, sparse, fmt, bcplx
         c.name = (f"soe.{cls}{info}.n{n}.f{''.join(str(int(v)) for v in mask) if n <= 12 else len(f)}.{fmt}.{'c' if cplx else 'r'}."
-                  f"k{k}.{give}.{seeds}.{c.solver}.s{spec['seed']}")
+                  f"k{k}.{give}.{seeds}.{c.solver}.bf{'c' if bfc else 'r'}xp{'c' if xpc else 'r'}.s{spec['seed']}")
         c.condmat = A[np.ix_(f, f)]
         c.condfull = A
     elif st == "staticcond":
@@ -357,8 +362,7 @@ def build(spec):
             nd = int(rng.integers(1, 4))
             c.G = [(rng.standard_normal(nm) + (1j * rng.standard_normal(nm) if cplx else 0),
                     rng.standard_normal(nm) + (1j * rng.standard_normal(nm) if cplx else 0)) for _ in range(nd)]
-        # iterative (CG) overrides are excluded: the np.matrix rhs breaks them (corpus/defects/c07_staticcond_iterative_solver)
-        choices = [s for s in solver_choices(cls, True, cplx) if not (s or "").startswith("CG")]
+        choices = solver_choices(cls, True, cplx)
         c.solver = spec.get("solver", choices[int(rng.integers(0, len(choices)))] if rng.random() < 0.3 else None)
         c.A, c.main, c.free = A, main, free
         c.cls, c.cplx, c.sparse, c.fmt = cls, cplx, True, fmt
@@ -641,7 +645,7 @@ def malformed(ctx):
         # 6. free and prescribed sizes do not add up to n
         if nf >= 2:
             cases.append(("soe.index_count", lambda s=soe, f=f, p=p: s(free=f[:-1], prescribed=p), req(free=f[:-1], prescribed=p)))
-        # 7. StaticCondensation with a dense matrix: AttributeError (`.todense()` on an ndarray)
+        # 7. StaticCondensation with a dense matrix: AttributeError (`.toarray()` on an ndarray)
         cases.append(("staticcond.dense", lambda A=A, n=n: pm.StaticCondensation([pm.Signal("A", A.copy())], main=np.array([0]), free=np.arange(1, n)).response(),
                       {"m": "c07.staticcond", "n": n, "sparse": False, "A": enc(A), "main": [0], "free": list(range(1, n))}))
     reqs = [c[2] for c in cases]
@@ -708,6 +712,16 @@ def specs(ctx):
         out.append({"stream": "staticcond", "seed": seed()})
     for _ in range(5 if quick else 40):
         out.append({"stream": "staticcond", "seed": seed(), "cls": "fe"})
+    # StaticCondensation with every solver override valid for the class (incl. CG with each preconditioner)
+    for cls in ("spd", "general", "symindef", "fe"):
+        for cplx in (False, True):
+            for sname in solver_choices(cls, True, cplx):
+                for _ in range(1 if quick else 3):
+                    out.append({"stream": "staticcond", "seed": seed(), "cls": cls, "cplx": cplx, "solver": sname})
+    # SystemOfEquations: real dense matrix with every dtype combination of bf / xp
+    for rd in range(1, 5):
+        for _ in range(3 if quick else 15):
+            out.append({"stream": "soe", "seed": seed(), "cplx": False, "sparse": False, "rhsdtype": rd})
     return out
 
 
@@ -761,6 +775,8 @@ def run_specs(ctx, speclist, record=True):
                 ctx.branch(f"{c.stream}.{c.cls if hasattr(c, 'cls') else 'dense'}.{getattr(c, 'fmt', 'dense')}")
                 if getattr(c, "solver", None):
                     ctx.branch(f"solver.{c.solver}")
+                if c.stream == "soe":
+                    ctx.branch(f"soe.dtype.A{'c' if c.cplx else 'r'}.bf{'c' if np.iscomplexobj(c.bf) else 'r'}.xp{'c' if np.iscomplexobj(c.xp) else 'r'}.{'sp' if c.sparse else 'de'}")
                 if c.stream == "linsolve":
                     ctx.branch(f"linsolve.rhs.{'block' if c.k else 'vector'}.{'c' if np.iscomplexobj(c.b) else 'r'}.A{'c' if c.cplx else 'r'}")
     res = model_balanced(ctx, [model_req(c) for c in cases])
